@@ -270,14 +270,14 @@ structure GcNode where
 /-- a racing operation: new node state and status (HTTP status of pin / unpin, 0 for a read) -/
 abbrev RaceOp := State → State × Nat
 
-/-- one candidate: the racing operation (if this is the candidate it waits for), then
+/-- candidate number `i` (from 0): the racing operation if it is armed for this position, then
     `DelFile(root, callback)`: pyramid by the reference counts as they are now, re-check of the dirty
     addresses, eviction; chunkinfo drops its tables only if the callback succeeded -/
-def gcCandidate (race : Option (Addr × RaceOp)) (first : Bool) (g : GcNode)
+def gcCandidate (race : Option (Nat × RaceOp)) (i : Nat) (g : GcNode)
     (e : Aurora.Localstore.GcKey × Nat) : GcNode :=
   let g1 : GcNode := match race with
-    | some (trigger, op) =>
-      if first && trigger == e.1.addr then
+    | some (pos, op) =>
+      if i == pos then
         let (s', code) := op g.s
         { s := s', run := { g.run with st := s'.ls }, fired := some code }
       else g
@@ -290,28 +290,37 @@ def gcCandidate (race : Option (Addr × RaceOp)) (first : Bool) (g : GcNode)
     { g1 with s := { s2 with cp := delRootCid s2.cp fi.fs, ci := ChunkInfo.delFile s2.ci fi.fs.root }, run := run' }
   | _, _ => { g1 with s := s2, run := run' }
 
-def gcCandidates (race : Option (Addr × RaceOp)) : Bool → GcNode →
+def gcCandidates (race : Option (Nat × RaceOp)) : Nat → GcNode →
     List (Aurora.Localstore.GcKey × Nat) → GcNode
   | _, g, [] => g
-  | first, g, e :: rest => gcCandidates race false (gcCandidate race first g e) rest
+  | i, g, e :: rest => gcCandidates race (i + 1) (gcCandidate race i g e) rest
 
-/-- one `collectGarbage` run with a racing operation; returns (state, done, collected, fired) -/
-def gcRunRace (s : State) (race : Option (Addr × RaceOp)) : State × Bool × Nat × Option Nat :=
+/-- one `collectGarbage` run with a racing operation `(roots, op)`: `op` runs inside the `DelFile` call
+    number `roots.length` of the run, provided the run's calls up to there are for exactly `roots`;
+    returns (state, done, collected, status of the operation if it ran) -/
+def gcRunRace (s : State) (race : Option (List Addr × RaceOp)) : State × Bool × Nat × Option Nat :=
   let r1 := Aurora.Localstore.gcSelect s.ls
   match r1.out with
   | .gcSel =>
     let s0 := { s with ls := r1.st }
-    let g := gcCandidates race true { s := s0, run := Aurora.Localstore.GcRun.start r1.st } r1.st.cands
+    let armed : Option (Nat × RaceOp) := match race with
+      | some (roots, op) =>
+        if !roots.isEmpty && (r1.st.cands.map (·.1.addr)).take roots.length == roots
+        then some (roots.length - 1, op) else none
+      | none => none
+    let g := gcCandidates armed 0 { s := s0, run := Aurora.Localstore.GcRun.start r1.st } r1.st.cands
     let r2 := Aurora.Localstore.gcFinish g.run
     match r2.out with
     | .gcDone n done _ => ({ g.s with ls := r2.st }, done, n, g.fired)
     | _ => ({ g.s with ls := r2.st }, true, 0, g.fired)
   | _ => ({ s with ls := r1.st }, true, 0, none)
 
-/-- `gcr c`: as `gc c`; the racing operation is armed for the FIRST `DelFile` call of the first run only -/
-def gcRace (s : State) (c : Nat) (race : Addr × RaceOp) : State × Nat × Option Nat :=
+/-- `gcr c` / `gcr2 c`: as `gc c`; the racing operation is armed for the first run only (`[root]`: its
+    first `DelFile` call; `[r1, r2]`: its second call, i.e. after the callback of `r1` has decided that
+    file's deletions and before the run's batch is committed) -/
+def gcRace (s : State) (c : Nat) (race : List Addr × RaceOp) : State × Nat × Option Nat :=
   let s0 := { s with ls := { s.ls with capacity := c } }
-  let rec loop (fuel : Nat) (s : State) (total : Nat) (race : Option (Addr × RaceOp)) (fired : Option Nat) :
+  let rec loop (fuel : Nat) (s : State) (total : Nat) (race : Option (List Addr × RaceOp)) (fired : Option Nat) :
       State × Nat × Option Nat :=
     match fuel with
     | 0 => (s, total, fired)
